@@ -2177,15 +2177,15 @@ static vbi_bool vbi_proxyd_take_message( PROXY_CLNT *req, VBIPROXY_MSG * pMsg )
                if (proxy.dev[req->dev_idx].p_decoder != NULL)
                {
                   req->msg_buf.body.service_cnf.dec = *proxy.dev[req->dev_idx].p_decoder;
-                  req->msg_buf.body.connect_cnf.dec.pattern = NULL;
+                  req->msg_buf.body.service_cnf.dec.pattern = NULL;
                }
                else
                {  /* acquisition not running: if the request is still considered sucessful
                   ** this is only possible if no services were requested */
-                  memset(&req->msg_buf.body.connect_cnf.dec, 0,
-                         sizeof(req->msg_buf.body.connect_cnf.dec));
-                  req->msg_buf.body.connect_cnf.dec.start[0] = -1;
-                  req->msg_buf.body.connect_cnf.dec.start[1] = -1;
+                  memset(&req->msg_buf.body.service_cnf.dec, 0,
+                         sizeof(req->msg_buf.body.service_cnf.dec));
+                  req->msg_buf.body.service_cnf.dec.start[0] = -1;
+                  req->msg_buf.body.service_cnf.dec.start[1] = -1;
                }
                req->msg_buf.body.service_cnf.services = req->all_services;
 
